@@ -147,13 +147,16 @@ class PtRotationTarget:
     transform_out[(c,d),(a,b)] = U[a,c] conj(U)[b,d].  (get_mpo_tensor contracts the legs with transform_in^T / transform_out:
     C03 pt/transform.)"""
 
-    def __init__(self, which):
+    def __init__(self, which, prop=None, replay=None):
         self.which = which
         self.qualname = 'pt_tempo.PtTempo._init_%s_process_tensor' % which
         self.name = 'wire/pt-basis-rotation[%s]' % which
-        self.prop = PROP
+        self.prop = prop or PROP
+        self._replay = replay
 
     def replay(self, ob):
+        if self._replay:
+            return self._replay(ob)
         return {'func': 'basis_covariance_pt', 'inputs': {'obligation': ob['name']}}
 
     def run(self, timeout_ms, tier):
@@ -165,7 +168,7 @@ class PtRotationTarget:
         from pyvc import values as Vv
         t0 = time.time()
         repo = Repo()
-        res = {'target': self.name, 'function': self.qualname, 'property': PROP, 'paths': 0, 'obligations': [], 'undecided': [], 'errors': [],
+        res = {'target': self.name, 'function': self.qualname, 'property': self.prop, 'paths': 0, 'obligations': [], 'undecided': [], 'errors': [],
                'flags': ['FREE_TENSOR_SYMBOLS'], 'lib_pure': [], 'lib_used': ['numpy.kron / .T / .conjugate() (einsum terms)']}
         fref = repo.resolve(self.qualname)
         if fref is None:
@@ -224,6 +227,25 @@ class PtRotationTarget:
             work.extend(ip.new_forks)
         res['seconds'] = round(time.time() - t0, 3)
         return res
+
+
+def rotation_targets(prop, replay):
+    """both back ends take the system into the eigenbasis of the coupling operator with the same unitary, in the same direction"""
+    from . import c01
+    T = []
+
+    def post_rot(ip, ctx, out):
+        before = len(ip.obligations)
+        c01.post_init(ip, ctx, out)
+        for ob in ip.obligations[before:]:
+            ob['name'] = ob['name'].replace('tempo/init-labels', 'wire/basis-rotation[TEMPO dk=0 tensor]')
+    RI = c01.init_registry()
+    for dg in (False, True):
+        T.append(Target('wire/basis-rotation[degeneracy_maps=%s]' % dg, 'backends.tempo_backend.BaseTempoBackend.initialize_mps_mpo',
+                        c01.scen_init(False, dg), post_rot, RI, prop, replay=replay))
+    T.append(PtRotationTarget('simple', prop, replay))
+    T.append(PtRotationTarget('file', prop, replay))
+    return T
 
 
 def targets(tier='quick'):
